@@ -130,7 +130,8 @@ package mpx
 //@   modifies ghost.errMade at 0
 //@   ensures[C11] result1.Code != "ok" ==> ghost(errMade, 0) == 1
 //@   ensures[C11] result1.Code == "ok" ==> ghost(errMade, 0) == old(ghost(errMade, 0))
-//@   assert[C11] after req: code == 1 && st.Code == "ok"
+//@   modifies ghost.takenFromCode at 0
+//@   ensures[C11] result1.Code == "ok" ==> ghost(takenFromCode, 0) == 1
 
 //@ func (*connReader).readResponse
 //@   safety[C11]
@@ -138,7 +139,8 @@ package mpx
 //@   modifies ghost.errMade at 0
 //@   ensures[C11] result1.Code != "ok" ==> ghost(errMade, 0) == 1
 //@   ensures[C11] result1.Code == "ok" ==> ghost(errMade, 0) == old(ghost(errMade, 0))
-//@   assert[C11] after resp: code == 2 && st.Code == "ok"
+//@   modifies ghost.takenFromCode at 0
+//@   ensures[C11] result1.Code == "ok" ==> ghost(takenFromCode, 0) == 2
 
 //@ func (*conn).handshakeAsServer
 //@   safety[C11]
@@ -244,10 +246,36 @@ package mpx
 //@ func (Message).Code
 //@   trusted
 //@   ensures result == ghost(msgCode, MK(m))
+// presence tests of the generated message view: pure (assumed, generated code is C05's subject)
+//@ func (Message).HasCode
+//@   trusted
+//@ func (Message).HasConnectRequest
+//@   trusted
+//@ func (Message).HasConnectResponse
+//@   trusted
+//@ func (Message).HasBatch
+//@   trusted
+//@ func (Message).HasChannelOpen
+//@   trusted
+//@ func (Message).HasChannelClose
+//@   trusted
+//@ func (Message).HasChannelData
+//@   trusted
+//@ func (Message).HasChannelWindow
+//@   trusted
+//@ func (Message).IsEmpty
+//@   trusted
+// the accessors record the code of the message the payload was taken from, so that readRequest /
+// readResponse can state "the connect request / response handed on comes from a message whose code
+// is CONNECT_REQUEST (1) / CONNECT_RESPONSE (2)" without naming a local variable
 //@ func (Message).ConnectRequest
 //@   trusted
+//@   modifies ghost.takenFromCode at 0
+//@   ensures ghost(takenFromCode, 0) == ghost(msgCode, MK(m))
 //@ func (Message).ConnectResponse
 //@   trusted
+//@   modifies ghost.takenFromCode at 0
+//@   ensures ghost(takenFromCode, 0) == ghost(msgCode, MK(m))
 //@ func (ConnectRequest).Versions
 //@   trusted
 //@ func (ConnectRequest).Compression
